@@ -151,7 +151,8 @@ Last4 == { [s |-> 65535, e |-> 65535, delta |-> 1, off |-> 0],           \* the 
            [s |-> 65520, e |-> 65535, delta |-> 100, off |-> 0] }
 Cand12 == << [s |-> 65,      e |-> 65,      g |-> 70],                   \* BMP, conflicts with format 4
              [s |-> 72,      e |-> 73,      g |-> 60],                   \* BMP, only in format 12
-             [s |-> 65536,   e |-> 65538,   g |-> 30],
+             [s |-> 65530,   e |-> 65540,   g |-> 80],                   \* straddles U+FFFF / U+10000
+             [s |-> 65541,   e |-> 65543,   g |-> 30],
              [s |-> 65791,   e |-> 65793,   g |-> 40],                   \* 0x100FF..0x10101
              [s |-> 131072,  e |-> 131073,  g |-> 65535],                \* gid wraps to 0
              [s |-> 1114110, e |-> 1114111, g |-> 50] >>                 \* ends at U+10FFFF
